@@ -2,7 +2,7 @@
 # tools/sweep.sh <tier> <seed> [ids...]: run checks on the unchanged tree, print one line each
 TIER=${1:-quick}; SEED=${2:-1}; shift; shift
 IDS=${@:-C01 C02 C03 C04 C05 C06 C07 C08 C09 C10 C11 C12 C13 C14 C15 C16 C17 C18 C19 C20}
-cd "$(dirname "$(readlink -f "$0")")/.."
+cd "$(dirname "$(readlink -f "$0")")/.."; mkdir -p work bin evidence replay
 for id in $IDS; do
   VERIF_SEED=$SEED ./check $id $TIER > work/sweep_$id.txt 2>&1; rc=$?
   echo "exit=$rc $(grep -a "^$id " work/sweep_$id.txt | tail -1 | cut -c1-200)"
